@@ -182,6 +182,21 @@ fn one_case<const K: usize>(r: &mut Rng, id: usize, out: &mut String) {
             Err(_) => "(pts )".to_string(),
         };
         out.push_str(&format!("(case {} tt {} {} {} {} {})\n", id, op, sx_tree(&a), sx_tree(&b), variants(vs), pts));
+        // the half-spaces the library reports for every edge of the left operand (what the pruning tests), any K
+        let items = catch(AssertUnwindSafe(|| {
+            let mut s = String::new();
+            let mut g = a.polyhedra();
+            while let Some((data, polys)) = g.next(&a.tree) {
+                if let Some(last) = polys.last() {
+                    s.push_str(&format!(" (item {} {})", data.index, sx_poly(last)));
+                }
+            }
+            s
+        }));
+        match items {
+            Ok(s) => out.push_str(&format!("(case {}e edges {} (items{}))\n", id, sx_tree(&a), s)),
+            Err(_) => out.push_str(&format!("(case {}e edges {} panic)\n", id, sx_tree(&a))),
+        }
     } else if kind < 8 {
         let f = if op == "div" { gen_divisor(r, m, n) } else { gen_aff(r, m, n, 6) };
         pre(&format!("(case {} tf {} {} {} (variants panic) (pts ))", id, op, sx_tree(&a), sx_aff(&f)));
@@ -231,12 +246,15 @@ fn main() {
             .expect("spawn child");
         let text = String::from_utf8_lossy(&outp.stdout).to_string();
         let mut pre_line: Option<String> = None;
-        let mut case_line: Option<String> = None;
+        let mut case_line: Option<String> = None; // all case lines of the child, joined
         for l in text.lines() {
             if let Some(rest) = l.strip_prefix("PRE ") {
                 pre_line = Some(rest.to_string());
             } else if l.starts_with("(case ") {
-                case_line = Some(l.to_string());
+                case_line = Some(match case_line {
+                    Some(prev) => format!("{}\n{}", prev, l),
+                    None => l.to_string(),
+                });
             }
         }
         match (outp.status.success(), case_line, pre_line) {
